@@ -52,7 +52,7 @@ def register(R):
     # the user's extra_args map gets the default checksum algorithm
     setm(f'{UT}:set_default_checksum_algorithm', lambda c: map_locs(c.a_extra_args))
     setm(f'{BW}:BandwidthLimitedStream._consume_through_leaky_bucket', lambda c: [('f', c.self, '_bytes_seen')])
-    setm(f'{PP}:ProcessPoolDownloader._shutdown', lambda c: [('f', c.self, '_started')])
+    setm(f'{PP}:ProcessPoolDownloader._shutdown', lambda c: [('f', c.self, '_started'), ('f', c.self, '_workers')])
     # CRT: a submitted transfer is tracked, the id counter advances, a permit is held until on_done
     setm(f'{CRT}:CRTTransferManager._submit_transfer', lambda c: [
         ('f', c.self, '_id_counter'), ('m', c.old.f(c.self, '_future_coordinators'), 'len'), ('m', c.old.f(c.self, '_future_coordinators'), 'arr'),
